@@ -49,14 +49,14 @@ PROPS = {
     },
     "C14": {
         "rules": [labels.rule_stride, labels.rule_jtorder, labels.rule_label, codegen.rule_isel("x86_64"), codegen.rule_isel("aarch64"),
-                  codegen.rule_isel("rv64"), hygiene.rule_seed, typing_rules.rule_tyrule],
+                  codegen.rule_isel("rv64"), hygiene.rule_seed, typing_rules.rule_tyrule, codegen.rule_regfile],
         "text": "Well-formedness of the emitted assembly decided structurally: (R-LABEL) every label-defining site has one of five "
                 "shapes whose languages are pairwise disjoint given the grammar's identifier classes, counters make generated labels "
                 "unique, generated definition names consult the set of used names; (R-STRIDE) jump_length(n) = n * size of the single "
                 "fixed-size jump that jump_label_fixed emits, one table entry per clause; (R-JTORDER) clauses are normalised to "
                 "declaration order, which the tag arithmetic assumes - the normalisation itself happens in the type checker, whose "
                 "checked clause lists of Case and New come out in declaration order whatever order the clauses are written in (R-TYRULE, "
-                "folded over every clause list of up to three clauses); (R-IMM, via the symbolic machine) every immediate, shift and "
+                "folded over every clause list of up to three clauses); (R-REGFILE) every environment position is given an existing, unreserved register or a slot inside the spill area, all distinct; (R-IMM, via the symbolic machine) every immediate, shift and "
                 "memory offset of the arithmetic/compare/move/literal templates fits the instruction form it is printed in, for "
                 "literals of every magnitude in every placement.",
         "assumptions": ["validity of every instruction form as such (beyond immediates/offsets and memory-destination imul) is not decided",
@@ -90,7 +90,7 @@ PROPS = {
     },
     "C06": {
         "rules": [codegen.rule_isel("x86_64"), enums.rule_enum_dispatch, traversal.rule_trav(["axcut2backend::statements::code_statement::CodeStatement"]),
-                  abi.rule_abi_cached("x86_64"), pmoves.rule_cycle, pmoves.rule_pmoves, memory.rule_mem("x86_64"), statements.rule_stmt("x86_64")],
+                  abi.rule_abi_cached("x86_64"), pmoves.rule_cycle, pmoves.rule_pmoves, memory.rule_mem("x86_64"), statements.rule_stmt("x86_64"), codegen.rule_regfile],
         "text": "Instruction-selection templates of the x86-64 backend validated for every reachable operand placement (environment "
                 "positions straddling the register/spill boundary): each emission function (add, sub, mul, div, rem, mov, "
                 "load_immediate with boundary literals of every magnitude, the twelve conditional jumps) is folded from its MIR into "
@@ -104,7 +104,7 @@ PROPS = {
     },
     "C07": {
         "rules": [codegen.rule_isel("aarch64"), enums.rule_enum_dispatch, traversal.rule_trav(["axcut2backend::statements::code_statement::CodeStatement"]),
-                  abi.rule_abi_cached("aarch64"), pmoves.rule_cycle, pmoves.rule_pmoves, memory.rule_mem("aarch64"), statements.rule_stmt("aarch64")],
+                  abi.rule_abi_cached("aarch64"), pmoves.rule_cycle, pmoves.rule_pmoves, memory.rule_mem("aarch64"), statements.rule_stmt("aarch64"), codegen.rule_regfile],
         "text": "Instruction-selection templates of the AArch64 backend validated for every reachable operand placement (environment "
                 "positions straddling the register/spill boundary): each emission function (add, sub, mul, div, rem, mov, "
                 "load_immediate with boundary literals of every magnitude, the twelve conditional jumps) is folded from its MIR into "
